@@ -12,7 +12,7 @@ import (
 )
 
 type corpusStats struct {
-	Fixtures, Literals, Residues, Probes, Mutated, Long, Reps, Grown, Family, Total int
+	Fixtures, Literals, Residues, Probes, Mutated, Long, Reps, Grown, Family, Padded, Total int
 }
 
 // parseFixture returns the --INPUT-- section of a libinjection test file.
@@ -218,6 +218,38 @@ func buildCorpus(e *Env, seed uint64, nMut int, long bool) (*common.Corpus, corp
 			add(fill("1 union select 1,2,3 from t -- ", n), common.FLong)
 			add(fill("x\" onmouseover=alert(1) y=\"", n), common.FLong)
 		}
+		// every second fixture / literal padded with filler: the head (first tokens,
+		// first tags) keeps deciding the verdict while the length crosses thresholds
+		padBases := append(append([]string(nil), bases...), litBases...)
+		sizes := []int{600, 1100, 2300, 4700, 9000}
+		np := 0
+		for k := 0; k < len(padBases); k += 2 {
+			b := padBases[k]
+			if len(b) < 3 || len(b) > 300 {
+				continue
+			}
+			n := sizes[np%len(sizes)]
+			sep := []string{" ", " -- ", "\n", " /* */ ", "> "}[np%5]
+			add(fill(b+sep, n), common.FPadded)
+			np++
+		}
+		// multi-context splices: two inputs joined by a quote, so that one part is
+		// seen as-is and the other inside a quoted parsing context (both detectors
+		// evaluate several contexts per call and report the first that matches);
+		// half of them padded beyond 1 kB
+		for k := 0; k < 260 && len(pool) > 1; k++ {
+			a, b := pool[r.Intn(len(pool))], pool[r.Intn(len(pool))]
+			if len(a) > 120 || len(b) > 120 {
+				continue
+			}
+			q := []string{" ' ", " \" ", "' ", "\" ", " ` ", "'>", "\">"}[r.Intn(7)]
+			sp := a + q + b
+			if k%2 == 0 {
+				add(sp, common.FMutated)
+			} else {
+				add(fill(sp+" ", []int{1100, 2300, 4700}[k%3]), common.FPadded)
+			}
+		}
 		longPats := []string{"1 union select ", "<a href=x ", "a' or 1=1 -- ", "/*! 1 */ ", "&#x6A;av"}
 		for i, p := range longPats {
 			n := 10000 + 6000*i
@@ -247,6 +279,9 @@ func buildCorpus(e *Env, seed uint64, nMut int, long bool) (*common.Corpus, corp
 		}
 		if f&common.FRep != 0 {
 			st.Reps++
+		}
+		if f&common.FPadded != 0 {
+			st.Padded++
 		}
 	}
 	st.Total = c.Len()
